@@ -22,6 +22,7 @@ import (
 	"sort"
 	"strconv"
 	"strings"
+	"time"
 
 	cluster "github.com/envoyproxy/go-control-plane/envoy/config/cluster/v3"
 	corev3 "github.com/envoyproxy/go-control-plane/envoy/config/core/v3"
@@ -37,27 +38,126 @@ import (
 	"k8s.io/apimachinery/pkg/util/intstr"
 
 	networkingapi "istio.io/api/networking/v1alpha3"
+	"istio.io/istio/pilot/pkg/features"
 	"istio.io/istio/pilot/pkg/model"
+	"istio.io/istio/pilot/pkg/xds"
 	"istio.io/istio/pilot/pkg/xds/endpoints"
 	xdsfake "istio.io/istio/pilot/test/xds"
 	"istio.io/istio/pkg/config"
 	"istio.io/istio/pkg/config/host"
 	"istio.io/istio/pkg/config/mesh"
 	"istio.io/istio/pkg/config/schema/gvk"
+	"istio.io/istio/pkg/config/schema/kind"
 	"istio.io/istio/pkg/ptr"
+	"istio.io/istio/pkg/util/sets"
 	"istio.io/istio/pkg/wellknown"
 	"verifharness/internal/quiet"
 	"verifharness/internal/wire"
 )
 
+// e2eWorld: one FakeDiscoveryServer with a client and a server proxy. Op cl builds one per op; op hc keeps it for the
+// rest of the case, and every later pa / pu / pd of the case is applied to its config store (the real update path:
+// config handler -> ConfigUpdate -> debounce -> updateContext, then per proxy computeProxyState + ProxyNeedsPush).
+type e2eWorld struct {
+	f              *failer
+	fs             *xdsfake.FakeDiscoveryServer
+	client, server *model.Proxy
+	key            string
+	hostname       string
+	subsetName     string
+	port, target   uint32
+	tp             *networkingapi.TrafficPolicy
+	twoEndpoints   bool
+	restore        func()
+	// since the last edit: does production push it to the proxy (ProxyNeedsPush), "-" before the first edit
+	needClient, needServer string
+	lastEff, lastNs        string // oracle: the decision at the previous read
+}
+
+func (w *e2eWorld) close() {
+	if w.restore != nil {
+		w.restore()
+	}
+	w.f.done()
+}
+
 func (s *sut) clientE2E(ns string, labels [][2]string, clientNs, kind string, port uint32) string {
+	w := s.buildE2E(ns, labels, clientNs, kind, port)
+	defer w.close()
+	return w.read()
+}
+
+// historyE2E (op hc): the same reading as cl, on the world kept since the first hc of the case.
+func (s *sut) historyE2E(ns string, labels [][2]string, clientNs, kind string, port uint32) string {
+	key := strings.Join([]string{ns, encLabels(labels), clientNs, kind, fmt.Sprint(port)}, " ")
+	if s.live != nil && s.live.key != key {
+		s.live.close()
+		s.live = nil
+	}
+	if s.live == nil {
+		s.live = s.buildE2E(ns, labels, clientNs, kind, port)
+		s.live.key = key
+	}
+	return s.live.read()
+}
+
+// edit applies one PeerAuthentication change to the live world, waits for the new push context and refreshes both
+// proxies the way a push does.
+func (w *e2eWorld) edit(op string, p paIn) {
+	old := w.fs.PushContext()
+	store := w.fs.Store()
+	var err error
+	switch op {
+	case "create":
+		_, err = store.Create(configOf(p))
+	case "update":
+		c := configOf(p)
+		c.ResourceVersion = ""
+		_, err = store.Update(c)
+	case "delete":
+		err = store.Delete(gvk.PeerAuthentication, p.name, p.ns, nil)
+	}
+	if err != nil {
+		panic("edit " + op + ": " + err.Error())
+	}
+	deadline := time.Now().Add(10 * time.Second)
+	for w.fs.PushContext() == old && time.Now().Before(deadline) {
+		time.Sleep(time.Millisecond)
+	}
+	push := w.fs.PushContext()
+	req := &model.PushRequest{
+		Push: push, Start: time.Now(), Reason: model.NewReasonStats(model.ConfigUpdate),
+		ConfigsUpdated: sets.New(model.ConfigKey{Kind: kind.PeerAuthentication, Name: p.name, Namespace: p.ns}),
+	}
+	need := func(px *model.Proxy) string {
+		xds.VerifC10ComputeProxyState(w.fs.Discovery, px, req)
+		_, n := xds.DefaultProxyNeedsPush(px, req)
+		return wire.B(n)
+	}
+	w.needClient, w.needServer = need(w.client), need(w.server)
+}
+
+func (s *sut) buildE2E(ns string, labels [][2]string, clientNs, kind string, port uint32) *e2eWorld {
 	f := &failer{}
-	defer f.done()
+	w := &e2eWorld{f: f, needClient: "-", needServer: "-"}
+	var labels2 [][2]string
+	if strings.HasPrefix(kind, "two:") {
+		// a second endpoint with labels of its own (another workload policy may select it)
+		labels2 = parseLabels(kind[4:])
+		w.twoEndpoints = true
+		kind = "two"
+	}
+	if kind == "hbone" {
+		// as in every ambient-enabled mesh: sidecars may send HBONE, clusters go through applyHBONETransportSocketMatches
+		oldSend := features.EnableHBONESend
+		features.EnableHBONESend = true
+		w.restore = func() { features.EnableHBONESend = oldSend }
+	}
 	var cfgs []config.Config
 	for _, p := range s.pas {
 		cfgs = append(cfgs, configOf(p))
 	}
-	const serverIP, clientIP = "10.2.2.2", "10.3.3.3"
+	const serverIP, server2IP, clientIP = "10.2.2.2", "10.2.2.3", "10.3.3.3"
 	hostname := "svc." + ns + ".example.com"
 	epLabels := labelsMap(labels)
 	if epLabels == nil {
@@ -81,6 +181,14 @@ func (s *sut) clientE2E(ns string, labels [][2]string, clientNs, kind string, po
 		Location:   networkingapi.ServiceEntry_MESH_INTERNAL,
 		Resolution: networkingapi.ServiceEntry_STATIC,
 		Endpoints:  []*networkingapi.WorkloadEntry{{Address: serverIP, Labels: epLabels}},
+	}
+	if w.twoEndpoints {
+		l2 := labelsMap(labels2)
+		if l2 == nil {
+			l2 = map[string]string{}
+		}
+		l2["security.istio.io/tlsMode"] = "istio"
+		se.Endpoints = append(se.Endpoints, &networkingapi.WorkloadEntry{Address: server2IP, Labels: l2})
 	}
 	switch kind {
 	case "external":
@@ -201,6 +309,15 @@ func (s *sut) clientE2E(ns string, labels [][2]string, clientNs, kind string, po
 		Type: model.SidecarProxy, ID: "server." + ns, ConfigNamespace: ns, IPAddresses: []string{serverIP}, Labels: lm,
 		Metadata: &model.NodeMetadata{Namespace: ns, Labels: lm},
 	})
+	w.fs, w.client, w.server = fs, client, server
+	w.hostname, w.subsetName, w.port, w.target, w.tp = hostname, subsetName, port, target, tp
+	return w
+}
+
+// read: CDS / EDS of the client, LDS of the server, on the world's CURRENT push context and proxy state.
+func (w *e2eWorld) read() string {
+	fs, client, server := w.fs, w.client, w.server
+	hostname, subsetName, port, target, tp := w.hostname, w.subsetName, w.port, w.target, w.tp
 	push := fs.PushContext()
 
 	// CDS: the client's outbound cluster
@@ -218,6 +335,7 @@ func (s *sut) clientE2E(ns string, labels [][2]string, clientNs, kind string, po
 	}
 	// EDS: the endpoint's tlsMode label as sent to the client
 	e, x := "-", "-"
+	byAddr := map[string][2]string{}
 	for _, cla := range fs.Endpoints(client) {
 		if cla.ClusterName != clusterName {
 			continue
@@ -232,7 +350,17 @@ func (s *sut) clientE2E(ns string, labels [][2]string, clientNs, kind string, po
 				// what Envoy does with this endpoint: the FIRST transport socket match of the cluster whose match is
 				// contained in the endpoint's envoy.transport_socket_match metadata, else the cluster's own socket
 				x = selectedSocket(theCluster, lbe.GetMetadata().GetFilterMetadata()["envoy.transport_socket_match"].GetFields())
+				byAddr[lbe.GetEndpoint().GetAddress().GetSocketAddress().GetAddress()] = [2]string{e, x}
 			}
+		}
+	}
+	if w.twoEndpoints {
+		// one decision per endpoint, in the order of the ServiceEntry
+		a, b := byAddr["10.2.2.2"], byAddr["10.2.2.3"]
+		if a[0] == "" || b[0] == "" || len(a[0]) != 1 || len(b[0]) != 1 {
+			e, x = "endpoints-missing", "-"
+		} else {
+			e, x = a[0]+b[0], a[1]+b[1]
 		}
 	}
 	// the real inference on the real service and the client's real sidecar-scope view
@@ -327,7 +455,7 @@ var _ = tlsv3.DownstreamTlsContext{}
 
 // clientE2EOracle: the composed decision against the spec and against what the server accepts.
 func (s *sut) clientE2EOracle(f []string, res string, fail func(clause, class, detail string)) {
-	ns, labels, kind := f[1], parseLabels(f[2]), f[4]
+	ns, labels, kind := wire.Dec(f[1]), parseLabels(f[2]), f[4]
 	p64, _ := strconv.ParseUint(f[5], 10, 32)
 	port := uint32(p64)
 	if port == 81 {
@@ -336,6 +464,62 @@ func (s *sut) clientE2EOracle(f []string, res string, fail func(clause, class, d
 	eff := effectiveMode(s.pas, s.root, ns, labels, port)
 	nsLevel := effectiveMode(s.pas, s.root, ns, nil, 0)
 	c, e := field(res, "C"), field(res, "E")
+	// op hc after an edit: the same clauses on a world with a history; a failure there is a stale component
+	afterEdit := f[0] == "hc" && s.live != nil && s.live.needClient != "-"
+	fail0 := fail
+	fail = func(clause, class, detail string) {
+		if afterEdit && !knownClasses[clause+":"+class] {
+			class = "after-edit:" + class
+		}
+		fail0(clause, class, detail)
+	}
+	if f[0] == "hc" && s.live != nil {
+		w := s.live
+		stat("judged.hc.reads")
+		if afterEdit {
+			stat("judged.hc.reads-after-edit")
+			// push propagation, judged by effect: an edit that changes the decision must be pushed to both proxies
+			if w.lastEff != "" && (w.lastEff != eff || w.lastNs != nsLevel) {
+				stat("judged.hc.edit-changes-decision")
+				if w.needClient != "1" {
+					fail0("client-push-dependency", "edit-changing-the-decision-not-pushed-to-client", fmt.Sprintf("effective %s -> %s namespace-level %s -> %s", w.lastEff, eff, w.lastNs, nsLevel))
+				}
+				if w.lastEff != eff && w.needServer != "1" {
+					fail0("client-push-dependency", "edit-changing-the-mode-not-pushed-to-server", fmt.Sprintf("effective %s -> %s", w.lastEff, eff))
+				}
+			}
+		}
+		w.lastEff, w.lastNs = eff, nsLevel
+	}
+	if strings.HasPrefix(kind, "two:") {
+		// two endpoints in one cluster, one decision each
+		labels2 := parseLabels(kind[4:])
+		eff2 := effectiveMode(s.pas, s.root, ns, labels2, port)
+		x := field(res, "X")
+		stat("judged.cl.kind.two")
+		if eff != eff2 {
+			stat("judged.cl.two.endpoints-with-different-modes")
+		}
+		if len(x) != 2 {
+			fail("client-composed", "endpoints-missing", res)
+			return
+		}
+		for k, m := range []string{eff, eff2} {
+			if (x[k] == '1') != (m != "DISABLE") {
+				class := "per-endpoint-decision"
+				if nsLevel == "DISABLE" && m != "DISABLE" && e[k] == '1' && x[k] == '0' {
+					class = "ns-disable-under-narrower-non-disable" // F13
+				}
+				fail("client-composed", class, fmt.Sprintf("endpoint %d effective %s selected-socket-tls %c label %c cluster-tls %s namespace-level %s", k+1, m, x[k], e[k], c, nsLevel))
+				return
+			}
+		}
+		return
+	}
+	if kind == "hbone" {
+		kind = "normal" // a client that may send HBONE decides as any other for an endpoint without tunnel support
+		stat("judged.cl.kind.hbone")
+	}
 	// the client originates mutual TLS iff the transport socket Envoy SELECTS for the endpoint is TLS
 	composed := field(res, "X") == "1"
 	detail := fmt.Sprintf("kind %s selected-socket-tls %v cluster-tls %s endpoint-label %s effective %s namespace-level %s chains %s", kind, composed, c, e, eff, nsLevel, field(res, "S"))
@@ -344,6 +528,21 @@ func (s *sut) clientE2EOracle(f []string, res string, fail func(clause, class, d
 	if e != "0" && e != "1" && e != "-" {
 		fail("client-composed", "endpoint-label-readers-disagree", detail)
 		return
+	}
+	// the server side of the same world: what virtualInbound admits on the endpoint port
+	if sv := field(res, "S"); sv != "-" && sv != "" && (kind == "normal" || kind == "router" || kind == "k8s") {
+		plain, mtls := false, false
+		for _, t := range strings.Split(sv, ",") {
+			_, rest, _ := strings.Cut(t, ":")
+			q := strings.Split(rest, ".")
+			if len(q) == 4 {
+				plain = plain || q[0] == "0"
+				mtls = mtls || (q[0] == "1" && q[3] == "2")
+			}
+		}
+		if plain != (eff != "STRICT") || mtls != (eff != "DISABLE") {
+			fail("inbound-enforces", "server-chains-disagree-with-effective-mode", detail)
+		}
 	}
 	switch kind {
 	case "normal", "router", "k8s":
